@@ -7,6 +7,8 @@ from sa.effects import Effects, all_events
 from sa.extract import effective_kwargs
 from sa.terms import C, P, is_call, is_const, is_lit, lit_const_values, norm_codec, root_of, show
 
+from sa.walker import State, flatten_events
+
 from . import fn_site
 from .signer import canon_bytes
 
@@ -40,9 +42,46 @@ def run(ctx):
     # ---- R3 single serializer: message sinks
     _sinks(ctx)
 
+    # ---- R4 total on what json.dumps takes: canonserialize fails only where json.dumps (or the
+    # encoding of its ASCII result) fails - a pre-check of the value turns payloads that have
+    # canonical bytes into payloads that have none
+    from . import own_site
+
+    extra = {}
+    for p in sm.paths:
+        if p.kind != "raise":
+            continue
+        x = p.value
+        if x.origin == "resource" or "json.dumps" in x.why or any("dumps" in st_.text for st_ in x.chain[-1:]):
+            continue
+        evs_p = [ev for ev, _d in flatten_events(p.events)]
+        if x.origin == "explicit" and any(ev[0] == "caught" and len(ev) > 6 and any("dumps" in st_.text for st_ in ev[6]) and (ev[2] == x.exc or eng.prog.exc_is_sub(x.exc, ev[2])) for ev in evs_p):
+            continue  # json.dumps' own failure, caught and raised again (same class) with another text
+        obj_t = P(sm.params[0])
+        ts_x = State(facts=set(p.facts) | set(x.conds)).types(obj_t)
+        if x.origin == "explicit" and x.exc == "TypeError" and ts_x is not None and not (ts_x & JSON_TYPES_ALL):
+            continue  # spelled-out refusal of a value json.dumps refuses with the same class
+        extra.setdefault((x.exc, x.chain[-1].key()), x)
+    for (exc, k), x in sorted(extra.items()):
+        ctx.ob("R4", "serializer-refuses|%s|%s" % (exc, k), x.chain[-1].loc(), "canonserialize can fail with %s (%s) before/after json.dumps has its say: values that have a canonical form are turned away" % (exc, x.why[:80]), False)
+    ctx.ob("R4", "serializer-total", site.loc(), "canonserialize fails only where json.dumps does" if not extra else "canonserialize has %d way(s) of failing of its own" % len(extra), not extra)
+
+    # ---- R5 the rendering of numbers and text by json.dumps depends on interpreter-wide settings
+    # (integer digit limit, ...): nothing in the package changes such settings or patches a
+    # library module
+    from . import interpreter_reconfigurations
+
+    rec = interpreter_reconfigurations(eng)
+    for text, where, what in rec:
+        ctx.ob("R5", "reconfigures|%s|%s" % (what, text), where, "%s: %s - process-wide state that json.dumps and the other library calls read implicitly; the canonical bytes are no longer a function of the value alone" % (text, what), False)
+    ctx.count("R5.modules_scanned", len(eng.prog.modules))
+    ctx.floor("R5.modules_scanned", 5)
+    ctx.ob("R5", "interpreter-untouched", site.loc(), "no module of the package calls an interpreter-wide setter or assigns into an imported library module (%d modules scanned)" % len(eng.prog.modules) if not rec else "%d place(s) reconfigure the interpreter or a library module" % len(rec), not rec)
+
 
 # options on which "a function of the JSON value alone, different values never share it" rests; the
 # others (indent, ensure_ascii, separators) only fix the published byte format
+JSON_TYPES_ALL = frozenset(["dict", "list", "tuple", "str", "int", "float", "bool", "NoneType"])
 INJECTIVITY = ("sort_keys", "skipkeys", "cls", "default")
 
 
